@@ -487,8 +487,10 @@ def run(ctx):
       'sink closure is observed after the caller has released the exception '
       'object (its traceback keeps suspended upstream generators alive) while '
       'still holding the iterator',
-      'threads: num_threads = 0 only; the shards num_threads would make are '
-      'read one by one through SequenceDataSource.shard(i, k)',
+      'threads: the enumeration above uses num_threads = 0 (the shards '
+      'num_threads would make are read one by one through '
+      'SequenceDataSource.shard(i, k)); num_threads 1-2 are explored separately '
+      'under the deterministic scheduler for a failing apply over 4 records',
       'a shard delivers the contiguous range of the documented split (first '
       'n mod k shards one element more)',
       'a slice read that raises is not an element failure: it must never '
@@ -512,8 +514,37 @@ def run(ctx):
   ctx.notes['source_structures_per_n'] = {
       n: sum(1 for _ in source_structures(n, src_members)) for n in by_n}
   ctx.pmap(_unit, ctx.shuffled(units))
+  # num_threads in {1, 2} under the deterministic scheduler (E1): a failing
+  # operator call at every failure set |F| <= 2 over 4 records, skipping on/off
+  from vmc import explorer
+  import itertools as itt
+  tcfg = []
+  for threads in (1, 2):
+    for source in ('seq', 'iter', 'stream'):
+      for k in (0, 1, 2):
+        for fail in itt.combinations(range(4), k):
+          for ignore in (True, False):
+            if threads == 2 and ctx.quick and (source == 'iter' or k == 2):
+              continue
+            tcfg.append(('skip_threaded', dict(n=4, threads=threads,
+                                               source=source, fail=list(fail),
+                                               ignore=ignore)))
+  ctx.notes['threaded_configurations'] = len(tcfg)
+  one = [c for c in tcfg if c[1]['threads'] == 1]
+  two = [c for c in tcfg if c[1]['threads'] == 2]
+  explorer.explore_all(ctx, 'vmc.ckharness', one,
+                       pre_bound=1 if ctx.quick else 2, hb_cache=True)
+  explorer.explore_all(ctx, 'vmc.ckharness', two,
+                       pre_bound=0 if ctx.quick else 1, hb_cache=True)
 
 
 def replay(ctx, data):
   r = data['replay']
+  if 'harness' in r:
+    from vmc import ckharness, explorer
+    h = ckharness.HARNESSES[r['harness']](**r['params'])
+    res, problems = explorer.replay_once(h, r['choices'])
+    for sig, detail in problems:
+      ctx.violation(sig, detail)
+    return
   run_case(ctx, r['prog'], tuple(r['failing']))
